@@ -28,6 +28,10 @@ RULE = ("exhaustive: every assignment of {200 with an empty body, 200 with 1-3 e
         "with the TLES environment variable set to a pattern whose newest file holds other satellites / the served satellites "
         "with other elements / matching nothing, for <= 4 URIs (<= 5 thorough), restored afterwards: the same results are "
         "required; Space-Track: {login 200/401/500} x {query 200/404/500} x 5 bodies with requests.Session interposed; "
+        "Space-Track again with 1, 2, 49, 50, 51, 100, 120 (thorough: further counts up to 400) configured platforms and a "
+        "stand-in server that serves one entry per catalogue number a query asks for (some numbers unknown to it; with / "
+        "without name lines, LF / CRLF): login failed -> [] and no query, query failed -> [], success -> exactly the "
+        "entries served over all queries made (order and number of queries not judged); "
         "distinct = (shape, assignment, URI name order, repeated position, TLES)")
 ASSUMPTIONS = ["a body is abstracted to the list of entries _parse_tles_for_downloader extracts from it; the extraction itself is "
                "C10's subject",
@@ -291,7 +295,10 @@ class Interposed:
 
             def get(self, url, **kw):
                 me.calls.append(("get", url))
-                return FakeResponse(me.session_plan["query"], me.session_plan["body"])
+                plan = me.session_plan
+                if "catalogue" in plan:
+                    return many_response(plan, url)
+                return FakeResponse(plan["query"], plan["body"])
 
         def refuse(*a, **k):
             me.calls.append(("unexpected", a[:2]))
@@ -428,6 +435,112 @@ def _spacetrack(ip, tlefile, tles):
     return st
 
 
+# ---- Space-Track with many configured platforms: "a success yields all served entries", however many are configured and
+# however the implementation asks for them.  The stand-in server reads the catalogue numbers out of each query URL and serves
+# one entry for every number it knows (a query whose URL names no numbers is served every known configured number); what it
+# served over all queries of one call is what the call must return.
+MANY_COUNTS = [1, 2, 49, 50, 51, 100, 120]
+MANY_FIRST = 40001
+
+
+def many_entry(num):
+    """A distinct checksum-valid element set for catalogue number `num`."""
+    l1, l2 = POOL[num % len(POOL)]
+    return _variant(l1, l2, satnum="%05d" % num, elnum=num % 9000 + 1)
+
+
+def many_numbers(n, style):
+    """n configured catalogue numbers (ascending for even styles, scattered for odd ones)."""
+    nums = [MANY_FIRST + 3 * k for k in range(n)]
+    if style % 2:
+        nums = nums[1::2] + nums[0::2][::-1]
+    return nums
+
+
+def many_unknown(num, style):
+    """Numbers the stand-in server has no element set for (none for styles 0 and 1)."""
+    return style >= 2 and num % 7 == 3
+
+
+def many_response(plan, url):
+    import re
+    if plan["query"] != 200:
+        return FakeResponse(plan["query"], "")
+    m = re.search(r"NORAD_CAT_ID/([^/]*)", url)
+    asked = [int(x) for x in re.findall(r"\d+", m.group(1))] if m else []
+    if not asked:
+        asked = list(plan["configured"])
+    sep = "\r\n" if plan["style"] % 4 == 1 else "\n"
+    txt = ""
+    for num in asked:
+        if num in plan["catalogue"]:
+            l1, l2 = plan["catalogue"][num]
+            plan["served"].append(num)
+            if plan["style"] % 2 == 0:
+                txt += "SAT %d" % num + sep
+            txt += l1 + sep + l2 + sep
+    return FakeResponse(200, txt)
+
+
+def run_many(ip, tlefile, n, style, login, query, tles):
+    nums = many_numbers(n, style)
+    cat = {num: many_entry(num) for num in nums if not many_unknown(num, style)}
+    back = {e: num for num, e in cat.items()}
+    ip.session_plan = {"login": login, "query": query, "catalogue": cat, "configured": nums, "style": style, "served": []}
+    ip.calls = []
+    cfg = {"platforms": {num: "SAT %d" % num for num in nums},
+           "downloaders": {"fetch_spacetrack": {"user": "u", "password": "p"}}}
+    try:
+        r = tlefile.Downloader(cfg).fetch_spacetrack()
+        got = ("list", [back.get((t.line1, t.line2), -1) for t in r])
+    except Exception as e:  # noqa
+        got = ("exc", type(e).__name__, str(e)[:200])
+    return {"login": login, "query": query, "many": n, "style": style, "served": list(ip.session_plan["served"]),
+            "got": got, "n_query": sum(1 for c in ip.calls if c[0] == "get"),
+            "unexpected": [c for c in ip.calls if c[0] == "unexpected"][:2], "tles": tles}
+
+
+def _spacetrack_many(ctx, ip, tlefile, tles):
+    counts = list(MANY_COUNTS)
+    if ctx.tier == "thorough" or ctx.intensified:
+        counts += [3, 25, 99, 101, 150, 151, 200, 201, 256, 400] + [ctx.rng.randrange(1, 400) for _ in range(6)]
+    out = []
+    for n in counts:
+        for style in range(4):
+            for login in (200, 401):
+                for query in (200, 500):
+                    out.append(run_many(ip, tlefile, n, style, login, query, tles))
+    return out
+
+
+def judge_many(ctx, rec):
+    got = rec["got"]
+    case = {"login": rec["login"], "query": rec["query"], "many": rec["many"], "style": rec["style"], "spacetrack": True}
+    if rec.get("tles") is not None:
+        case["TLES"] = rec["tles"]
+    if rec["login"] != 200:
+        if list(got) != ["list", []]:
+            ctx.violation("spacetrack_result", case, list(got), [], site="Downloader.fetch_spacetrack")
+            return 1
+        if rec["n_query"] != 0:
+            ctx.violation("spacetrack_query_count", case, rec["n_query"], 0, site="Downloader.fetch_spacetrack")
+            return 1
+        return 0
+    if rec["query"] != 200:
+        if list(got) != ["list", []]:
+            ctx.violation("spacetrack_result", case, list(got), [], site="Downloader.fetch_spacetrack")
+            return 1
+        return 0
+    if got[0] != "list" or sorted(set(got[1])) != sorted(set(rec["served"])):
+        obs = list(got) if got[0] != "list" else {"returned": len(got[1]), "catalogue numbers returned": got[1][:8],
+                                                  "queries": rec["n_query"]}
+        ctx.violation("spacetrack_result", case, obs,
+                      {"all served entries": len(set(rec["served"])), "catalogue numbers served": sorted(set(rec["served"]))[:8],
+                       "configured platforms": rec["many"]}, site="Downloader.fetch_spacetrack")
+        return 1
+    return 0
+
+
 def _observe(ctx, max_total, obs):
     from pyorbital import tlefile
     max_env = ctx.size(4, 5)      # the whole table again for every TLES setting, up to this many URIs
@@ -451,6 +564,7 @@ def _observe(ctx, max_total, obs):
                 for kinds in itertools.product(KINDS, repeat=n - 1):
                     run(sizes, kinds, pick_order(ctx.rng, n - 1), slots, None, "listed_twice")
         st = _spacetrack(ip, tlefile, None)
+        stm = _spacetrack_many(ctx, ip, tlefile, None)
         # (3) the same experiments with the TLES variable set
         for tles in TLES_KINDS:
             tenv.use(tles)
@@ -459,6 +573,7 @@ def _observe(ctx, max_total, obs):
                 for kinds in itertools.product(KINDS, repeat=n):
                     run(sizes, kinds, pick_order(ctx.rng, n), None, tles, "table_TLES_" + tles)
             st += _spacetrack(ip, tlefile, tles)
+            stm += _spacetrack_many(ctx, ip, tlefile, tles)
         tenv.use(None)
         # downloader not configured
         try:
@@ -466,7 +581,7 @@ def _observe(ctx, max_total, obs):
             unconf = ("dict", [(s, len(v)) for s, v in r.items()]) if isinstance(r, dict) else ("other", repr(r))
         except Exception as e:  # noqa
             unconf = ("exc", type(e).__name__)
-    ctx._c17_obs = {"plain": obs, "st": st, "unconf": unconf, "max_total": max_total, "max_env": max_env, "max_dup": max_dup}
+    ctx._c17_obs = {"plain": obs, "st": st, "st_many": stm, "unconf": unconf, "max_total": max_total, "max_env": max_env, "max_dup": max_dup}
     return ctx._c17_obs
 
 
@@ -591,6 +706,13 @@ def oracle(ctx):
     for rec in obs["st"]:
         ctx.count("eval_oracle_spacetrack")
         judge_st(ctx, rec)
+    for rec in obs["st_many"]:
+        ctx.count("eval_oracle_spacetrack_many")
+        ctx.distinct(("spacetrack", rec["many"], rec["style"], rec["login"], rec["query"], rec.get("tles")))
+        if rec["login"] == 200 and rec["query"] == 200:
+            ctx.bump("spacetrack_platforms_configured", rec["many"])
+        if len([v for v in ctx.violations if v["case"].get("many")]) < 8:
+            judge_many(ctx, rec)
     if obs["unconf"] != ("dict", []):
         ctx.violation("unconfigured_not_empty", {"unconfigured": True}, list(obs["unconf"]), "{}", site="Downloader.fetch_plain_tle")
     ctx.exhaustive = True
@@ -607,6 +729,23 @@ def replay(ctx, case):
     inp = case.get("input", case)
     tles = inp.get("TLES")
     with TlesEnv() as tenv, Interposed() as ip:
+        if inp.get("spacetrack") and inp.get("many"):
+            from pyorbital import tlefile
+            import logging
+            tenv.use(tles)
+            logging.disable(logging.CRITICAL)
+            try:
+                rec = run_many(ip, tlefile, inp["many"], inp["style"], inp["login"], inp["query"], tles)
+            finally:
+                logging.disable(logging.NOTSET)
+                tenv.use(None)
+            print("spacetrack with %d configured platforms (style %d) login=%s query=%s TLES=%s -> %d queries, %d entries served, "
+                  "returned %s" % (rec["many"], rec["style"], rec["login"], rec["query"], tles, rec["n_query"],
+                                   len(rec["served"]), (len(rec["got"][1]) if rec["got"][0] == "list" else rec["got"])))
+            rc = judge_many(ctx, rec)
+            for v in ctx.violations[:2]:
+                print("VIOLATES:", v["kind"], "observed:", v["observed"], "required:", v["required"])
+            return 1 if rc else 0
         if inp.get("spacetrack"):
             obs = observe(ctx)
             rc = 0
